@@ -27,7 +27,8 @@ var c13Atoms = append(append([]ora.Atom{}, c09Atoms...),
 		return "<p>" + t.W(12) + " <span aria-hidden=\"false\" style=\"display:inline\">" + t.W(2) + "</span> <span aria-hidden=\"true\">" + t.W(1) + "</span> " + t.W(8) + "</p>"
 	}},
 	ora.Atom{Name: "PAGER3", Gen: func(t *ora.Tok) string {
-		return "<div class=\"pagination\"><a href=\"/story?page=1\">Prev</a> <a href=\"/story?page=3\">Next</a></div><div class=\"footer-nav\"><a href=\"/story?page=1&amp;utm=f\">Prev</a> <a href=\"/story?page=3&amp;utm=f\">Next</a></div>"
+		// two pagers whose Prev/Next links differ only by a tracking parameter: equal scores
+		return "<div class=\"pagination\"><a href=\"/story?ref=a&amp;page=1\">Prev</a> <a href=\"/story?ref=a&amp;page=3\">Next</a></div><p>" + t.W(21) + "</p><div class=\"pagination\"><a href=\"/story?ref=b&amp;page=1\">Prev</a> <a href=\"/story?ref=b&amp;page=3\">Next</a></div>"
 	}},
 	ora.Atom{Name: "OG", Gen: func(t *ora.Tok) string {
 		return "<div itemscope itemtype=\"http://schema.org/Article\"><span itemprop=\"headline\">" + t.W(3) + "</span><span itemprop=\"author\">" + t.W(2) + "</span></div>"
